@@ -14,7 +14,7 @@ from ..rngseam import Policy, T_GENERIC
 from ..spec import build_continuum, continuum_to_spec, spec_by_annotator, cont
 
 ID = "C19"
-TASK_TIMEOUT = 900.0
+TASK_TIMEOUT = 2400.0
 PRECISION = 1e-6
 META = {
     "rule": "execution = one complete answer sequence for (reference, magnitude, annotators, perturbation set); "
@@ -91,8 +91,8 @@ def configs(tier):
         out.append(dict(ref="s2", m=m, ann=two, op="false_pos", bound=None))
         out.append(dict(ref="s3", m=m, ann=2, op="cat_shuffle", bound=None))
         out.append(dict(ref="t2", m=m, ann=["k"], op="cat_shuffle", bound=None))
-        out.append(dict(ref="s2", m=m, ann=["k"], op="split", bound=None if m < 1 else (4 if q else 6), boundary=m >= 1))
-        out.append(dict(ref="s2", m=m, ann=2, op="split", bound=None if m < 0.5 else (3 if q else 5), boundary=True))
+        out.append(dict(ref="s2", m=m, ann=["k"], op="split", bound=None if m < 1 else (4 if q else 5), boundary=m >= 1))
+        out.append(dict(ref="s2", m=m, ann=2, op="split", bound=None if m < 0.5 else (3 if q else 4), boundary=True))
         out.append(dict(ref="s3", m=m, ann=["k"], op="split", bound=None if m < 0.5 else (3 if q else 4), boundary=True))
     # ---- the same perturbations through corpus_shuffle (flag routing), pairs and all combinations
     for ref in ("s2", "s3", "t2"):
@@ -154,7 +154,11 @@ def make_fn_factory(cfg):
             pa.Continuum.add = add
             try:
                 if pre:
-                    cst.corpus_shuffle(["p0"], **{f: True for f in pre["flags"]})
+                    earlier = cst.corpus_shuffle(["p0"], **{f: True for f in pre["flags"]})
+                    # the caller goes on working with the earlier corpus: a unit with a label of their own, a new annotator
+                    from pyannote.core import Segment
+                    orig_add(earlier, "p0", Segment(900, 901), "alien")
+                    earlier.add_annotator("visitor")
                     cst.magnitude = cfg["m"]
                     e1.mark("judged")
                 if cfg["op"] == "corpus":
@@ -288,12 +292,13 @@ def shards(tier, seed):
     tasks = []
     for cfg in configs(tier):
         mf = make_fn_factory(cfg)
-        for root in e1.compute_roots(mf, policy_for(cfg), depth=2, bound=cfg["bound"], horizon=300):
+        for root in e1.compute_roots(mf, policy_for(cfg), depth=2 if tier == "quick" else 3, bound=cfg["bound"], horizon=300):
             tasks.append({"cfg": cfg, "root": root})
     # group tiny tasks: one task per ~40 roots
     grouped = []
-    for i in range(0, len(tasks), 24):
-        grouped.append({"group": tasks[i:i + 24]})
+    per = 24 if tier == "quick" else 3
+    for i in range(0, len(tasks), per):
+        grouped.append({"group": tasks[i:i + per]})
     return grouped
 
 
